@@ -342,8 +342,9 @@ def r8_bins_size_strand(ctx):
     ctx.floor("derivations of stranded tables examined", n, 5)
 
 
-from ..through_time import make_rule as _mk_tt
+from ..through_time import make_rule as _mk_tt, make_t2 as _mk_t2
 _through_time = _mk_tt("C10")
+_small_edits = _mk_t2("C10")
 
 def _every_chromosome_visited(ctx):
     from .c12 import r1_pending_group, r2_every_contig_gets_a_buffer
@@ -360,5 +361,6 @@ RULES = [
     ("C10-R7", r7_label_order),
     ("C10-R8", r8_bins_size_strand),
     ("C10-T1", _through_time),
+    ("C10-T2", _small_edits),
     ("C10-R9", _every_chromosome_visited),
 ]
